@@ -52,7 +52,9 @@ def words_list(rng, n, uncap=0, twins=False, dups=False):
     if twins and "polish" in ws and "Polish" not in ws:
         ws.append("Polish")
     elif twins:
-        ws += ["polish", "Polish"]
+        # a lower-case word with its title form; a word with an inner capital with ITS title form (lower-casing is not the inverse
+        # of title-casing); an acronym next to its lower-case spelling (not twins: the title form of "usa" is "Usa")
+        ws += rng.choice([["polish", "Polish"], ["mcDonald", "McDonald"], ["usa", "USA"], ["polish", "Polish"]])
     if dups:
         ws += [rng.choice(ws)]
     rng.shuffle(ws)
